@@ -118,7 +118,7 @@ REQUIRE = {
     "maxprinciple_steps_first_axis_longer_than_x": 20,
 }
 SIM_KINDS = ("passive2d", "passive3d", "ns2d", "ns3d")
-VEL_KINDS = ("zero", "uniform", "uniform_neg", "spike", "noise", "noise_abs", "tiny")
+VEL_KINDS = ("zero", "uniform", "uniform_neg", "spike", "spike_last", "noise", "noise_abs", "tiny")
 FIELD_KINDS = ("noise", "spikes", "checker", "flat", "const")
 
 
@@ -159,6 +159,15 @@ def _velocity(rng, kind, d, shape, real_t):
             v[(c, *cell)] = float(rng.choice([-1.0, 1.0])) * 1e6 * float(rng.uniform(0.1, 1.0))
         if rng.random() < 0.5:
             v += (1e-3 * rng.standard_normal(v.shape)).astype(real_t)
+    elif kind == "spike_last":
+        # the fastest cells are the very last (or very first) cells in memory order: chunked / blocked reductions that drop a
+        # remainder (cell count not a multiple of the thread or block count) miss exactly these
+        flat = v.reshape(d, -1)
+        k = int(rng.integers(1, 4))
+        sl = slice(-k, None) if rng.random() < 0.7 else slice(0, k)
+        for c in (range(d) if rng.random() < 0.5 else [int(rng.integers(d))]):
+            flat[c, sl] = float(rng.choice([-1.0, 1.0])) * amp * 1e3 * float(rng.uniform(0.1, 1.0))
+        v += (1e-3 * amp * rng.standard_normal(v.shape)).astype(real_t)
     elif kind == "noise":
         v[...] = amp * rng.standard_normal(v.shape)
     elif kind == "noise_abs":
@@ -315,7 +324,7 @@ def _run_sim(sh, rec):
             dx_t = float(rng.uniform(1.3, 4.0))  # dx > 1: a step that scales like nu dt/dx instead of nu dt/dx^2 overshoots
         xr = dx_t * shape[-1]
         cfg = {"kind": "passive" if kind.startswith("passive") else kind, "shape": shape, "x_range": xr, "nu": nu, "cfl": cfl,
-               "dtype": sh["dtype"], "threads": 2}
+               "dtype": sh["dtype"], "threads": (2, 3, 4, 1)[k % 4]}
         if kind == "passive3d":
             cfg["field_type"] = "vector" if k % 2 else "scalar"
         sim = sims.build(cfg)
@@ -345,7 +354,14 @@ def _run_sim(sh, rec):
                 sim.cfl = cfl_cur
             if what == "velocity" or "zero" in what:
                 vk = "zero" if "zero" in what else VEL_KINDS[int(rng.integers(len(VEL_KINDS)))]
-                sim.velocity_field[...] = _velocity(rng, vk, d, shape, real_t)
+                newv = _velocity(rng, vk, d, shape, real_t)
+                if hs % 2 == 1 and kind.startswith("passive"):
+                    # the public attribute is REPLACED by another array (e.g. a velocity array shared with another simulator) instead of
+                    # being filled in place: time_step reads the attribute at call time, so must the recommended dt
+                    sim.velocity_field = np.ascontiguousarray(newv)
+                    rec.count("live_velocity_attribute_rebound")
+                else:
+                    sim.velocity_field[...] = newv
             else:
                 vk = "unchanged"
             rec.count("live_attribute_changes")
